@@ -382,7 +382,7 @@ def _wrap_signed(v, bits):
     return v
 
 
-def encode_delta(values, block_size=128, miniblocks=4, is64=True, info=None):
+def encode_delta(values, block_size=128, miniblocks=4, is64=True, info=None, unused_width=0):
     """DELTA_BINARY_PACKED.
 
     header: <block size> <miniblocks per block> <total count> <first value zz>
@@ -415,7 +415,8 @@ def encode_delta(values, block_size=128, miniblocks=4, is64=True, info=None):
         widths = []
         for m in range(miniblocks):
             mini = rel[m * per_mini:(m + 1) * per_mini]
-            widths.append(bit_width(max(mini)) if mini else 0)
+            # (width bytes of miniblocks that hold no value "should be zero, but readers must accept arbitrary values")
+            widths.append(bit_width(max(mini)) if mini else unused_width)
         out += bytes(widths)
         for m in range(miniblocks):
             mini = rel[m * per_mini:(m + 1) * per_mini]
